@@ -533,7 +533,8 @@ class CooperativeTask:
                 self.pause()
 
                 def failLater(failure: Failure) -> None:
-                    self._completeWith(TaskFailed(), failure)
+                    if self._completionState is None:
+                        self._completeWith(TaskFailed(), failure)
 
                 result.addCallbacks(lambda result: self.resume(), failLater)
 
@@ -708,7 +709,7 @@ class Cooperator:
         iterators which have been added and forget about them.
         """
         self._stopped = True
-        for taskObj in self._tasks:
+        for taskObj in list(self._tasks):
             taskObj._completeWith(SchedulerStopped(), Failure(SchedulerStopped()))
         self._tasks = []
         if self._delayedCall is not None:
